@@ -7,6 +7,7 @@ CONSTANTS
     InstKind <- MC_KindS
     NKeys = 2
     PropChoices <- MC_Props2
+    DupChoices <- MC_Dups
     Kinds <- MC_PushRoot
     Forms <- MC_Guard
     MaxFrames = 3
